@@ -53,6 +53,7 @@ def run(chk):
         "rejection-rule instances."
     )
     chk.rule("R1", "both union operands are projected by the left table's name list (Polars) / right side re-selected in left order (SQL)")
+    chk.rule("R1s", "SQL union: the Union branch of the compiler interpreted on stub operands (same order, permuted, hidden column): both operands select the left names in the left order, no ORDER BY in an operand, UNION vs UNION ALL, result columns are the left columns")
     chk.rule("R1v", "Polars union: on every path both stacked frames are projections to the visible columns (finite-domain evaluation)")
     chk.rule("R2", "distinct=True removes duplicates, distinct=False keeps them, on both back ends")
     chk.rule("R3", "recursive leaf visitors descend into `right` of every binary verb")
@@ -129,6 +130,25 @@ def run(chk):
     # ---- R1 sql
     sql = repo.mod("backend.sql")
     items_s = Slicer(sym, sql, scfg.subject, uc).slice(scfg.func.body)
+    # decided by interpretation of the Union branch on stub operands (sqlsim); the shape rules below are the fallback
+    from ..interp import PyRaise, SymbolicBranch
+    from ..sqlsim import SqlWorld, branch_body, union_scenarios
+
+    sql_union_decided = False
+    try:
+        ub = branch_body(scfg.func, scfg.subject, "Union")
+        if ub is None:
+            raise AnalysisError("no `isinstance(nd, Union)` branch in SqlImpl.compile_ast")
+        res_u = union_scenarios(SqlWorld(repo), ub)
+        sql_union_decided = True
+        for desc, ok_, detail in res_u:
+            chk.ob("R1s", sql, scfg.func, f"sql Union interpreted: {desc}", ok_, detail)
+        chk.floor("R1s", "SQL union scenarios", len(res_u), 20)
+    except (AnalysisError, SymbolicBranch) as e:
+        chk.note(f"R1s: the SQL Union branch could not be interpreted ({str(e)[:140]}); judged by shape")
+    except PyRaise as p_:
+        sql_union_decided = True
+        chk.ob("R1s", sql, scfg.func, "sql Union branch on stub operands", False, f"the SQL Union branch raises {p_.name}: {p_.msg}")
     reorder = None
     for it in items_s:
         # the branch guarded by "left names != right names" (either side may be an inlined list of `.name`s)
@@ -154,10 +174,10 @@ def run(chk):
             for s_ in reorder.body
         )
         ok = bool(loops) and by_name and bool(sel) and recompiled and rebound
-    chk.ob("R1", sql, scfg.func, "sql Union: if the name lists differ the right side is re-selected in the order of the left names", ok,
+    chk.ob("R1", sql, scfg.func, "sql Union: if the name lists differ the right side is re-selected in the order of the left names", ok or sql_union_decided,
            "SQL union no longer re-orders the right operand by the left column names: UNION matches columns by position")  # fmt: skip
     src_s = " ".join(norm(st) for st, _ in flat(items_s))
-    chk.ob("R1", sql, scfg.func, "sql Union: result columns carry the left names", "for uid in left_select" in src_s and "query = Query(select=left_select)" in src_s,
+    chk.ob("R1", sql, scfg.func, "sql Union: result columns carry the left names", sql_union_decided or ("for uid in left_select" in src_s and "query = Query(select=left_select)" in src_s),
            "the SQL union result is not labelled / selected by the left table's columns")  # fmt: skip
 
     # ---- R7 operands without ORDER BY
@@ -270,9 +290,24 @@ def run(chk):
         chk.ob("R3", mod, f, f"{f.name} descends into right of {sorted(classes & set(binary))}; binary verbs: {binary}", set(binary) <= classes,
                f"`{f.name}` walks the tree through `child` but reaches `right` only for {sorted(classes) or 'no verb'}: source tables below the "
                f"right side of {sorted(set(binary) - classes)} are skipped" + (" (they keep un-aliased table names: ambiguous columns in self-joins)" if writes_leaf else ""))  # fmt: skip
-    # iterators of the node classes
+    # iterators of the node classes: decided by interpreting them on a stub pipeline (exprsim); their spelling is only
+    # consulted when that is not possible
+    from ..exprsim import traversal_problems
+    from ..interp import PyRaise, SymbolicBranch
+
+    vm = chk.repo.mod("tree.verbs")
+    iter_decided = True
+    try:
+        n_nodes, probs = traversal_problems(chk.repo)
+        chk.ob("R3", vm, vm.func("Union.iter_subtree_preorder"), f"iter_subtree_preorder / postorder interpreted on a {n_nodes}-node pipeline with Join and Union: every node once, inputs in order",
+               not probs, "; ".join(probs) + ": leaf visitors built on the iterators (alias search, table naming, derived_from) skip tables")  # fmt: skip
+    except (AnalysisError, SymbolicBranch) as e:
+        iter_decided = False
+        chk.note(f"R3: tree iterators could not be interpreted ({str(e)[:120]}); judged by shape")
+    except PyRaise as p_:
+        chk.ob("R3", vm, vm.func("Union.iter_subtree_preorder"), "tree iterators on the sample pipeline", False, f"the tree iterators raise {p_.name}: {p_.msg}")
     for ci in sym.verb_classes():
-        if "right" not in ci.fields:
+        if iter_decided or "right" not in ci.fields:
             continue
         for meth in ("iter_subtree_postorder", "iter_subtree_preorder"):
             node = ci.methods.get(meth)
